@@ -113,3 +113,40 @@ func TempRoot(scratch string) string {
 	}
 	return d
 }
+
+// RunDisk executes the run with the library's own file writer: result files are written to (and read back from) the
+// result folder on disk. Used where the behaviour of the default writer itself matters (reused result folders).
+func RunDisk(root string, args []string, resultDir string) *RunResult {
+	res := &RunResult{Files: map[string]string{}}
+	session := hermes.NewHermesSession()
+	defer session.Close()
+	out := make(chan *hermes.RunReturn, 4)
+	logc := make(chan string, 4096)
+	func() {
+		defer func() {
+			if r := recover(); r != nil {
+				res.Panic = fmt.Sprint(r)
+			}
+		}()
+		session.Run(root, args, "[0]", out, logc)
+	}()
+	select {
+	case r := <-out:
+		res.Success = r.Success
+		if r.Err != nil {
+			res.Err = r.Err.Error()
+		}
+	default:
+		if res.Panic == "" {
+			res.Panic = "run returned without a result"
+		}
+	}
+	ents, _ := os.ReadDir(resultDir)
+	for _, e := range ents {
+		if !e.IsDir() {
+			b, _ := os.ReadFile(filepath.Join(resultDir, e.Name()))
+			res.Files[e.Name()] = string(b)
+		}
+	}
+	return res
+}
